@@ -30,9 +30,9 @@ def generate(repo):
             return
         v = c_unescape(m.group(1))
         C[name] = v
-        L.append('Definition %s : list Z := %s. (* %r *)' % (name, coq_str(v), v))
+        L.append('Definition %s : list Z := %s. (* %s *)' % (name, coq_str(v), repr(v).replace('"', '<dq>').replace('*)', '* )')))
 
-    piece('s_not', r'if \(lit < 0\) \{ os << "([^"]*)"; \}')
+    piece('s_not', r'\{ os << "(not )"; \}')
     piece('s_xpre', r'os << "([^"]*)" << id;')
     piece('s_step_pre', r'os_ << "(% #program step\()" << step_')
     piece('s_step_post', r'<< step_ << "([^"]*)";')
